@@ -321,4 +321,40 @@ PROPS = {
         "level_text": "Each completion query is an execution judged against the command definition and, candidate by candidate, against the real parser.",
         "level_note": "Shell adapters (env/shells.rs) are not executed (they need the process environment and stdout of a completer binary).",
     },
+    "C16": {
+        "quick_ms": 30000,
+        "thorough_ms": 300000,
+        "floors": {"generated.bash": 1000, "generated.zsh": 1000, "generated.fish": 1000, "generated.powershell": 1000, "generated.elvish": 1000,
+                   "generated.nushell": 1000, "mention.checked": 50000, "bash.syntax-ok": 1000, "bash.queries": 20000},
+        "rule": "wild command trees (depth <= 2, marker names incl. hyphenated / underscored / rarely `__` subcommand names, aliases, flag subcommands, "
+                "value hints, possible values incl. hidden, hidden args/subcommands, globals, groups/relations, benign or hostile text) x the six "
+                "generators: no panic, two generations byte-identical, every non-hidden long / visible long alias / non-hidden possible value / "
+                "subcommand name / visible subcommand alias of every level the format supports (fish: two) occurs in the script; the bash script "
+                "passes `bash -n` and its function is executed in bash (one process per script) on COMP_WORDS = path + partial for every path and "
+                "partials {\"\", -, --, --<1-4 chars of each long>, strict prefix of each subcommand}: a dash word yields only switches defined at "
+                "that level (incl. inherited globals, help/version) that extend it and all visible longs extending it; a bare word yields all "
+                "matching subcommand names/visible aliases and nothing that is not a name, switch, positional possible value or placeholder.",
+        "assumptions": COMMON_ASSUME + ["only bash is installed: 'works in the shell' is decided for bash only; the other five are judged on mentions, determinism and totality",
+                                        "mention = the unique marker occurs anywhere in the script (markers are unique per level)"],
+        "technique": "runtime totality/determinism monitor + mention-coverage invariant + executed-bash differential oracle (COMPREPLY vs definition)",
+        "level_text": "Every generator run is monitored; the bash script is additionally executed on enumerated completion queries and COMPREPLY compared with the command definition.",
+        "level_note": "Known format gaps (F4, F10, F26, F27) are keyed by (generator, item class); any other missing mention is a fresh violation.",
+    },
+    "C17": {
+        "quick_ms": 25000,
+        "thorough_ms": 300000,
+        "floors": {"compared.bash": 3000, "compared.zsh": 3000, "compared.fish": 3000, "compared.powershell": 3000, "compared.elvish": 3000, "compared.nushell": 3000,
+                   "bash.syntax-ok": 3000},
+        "rule": "wild trees (as C16) in two variants with identical structure and identical line structure of every descriptive slot (about, long_about, "
+                "before/after(_long)_help, author, versions, arg help/long_help, possible-value help): benign words vs adversarial lines (quotes of "
+                "either kind, typographic quotes U+2018-201B, backslashes, $(...), ${...}, backticks, brackets, colons, braces, {n}, ;|&#!%*?~<>, tabs, "
+                "CJK, combining marks, ZWJ, roff-looking starts). For each generator both scripts are reduced to a first-level skeleton by a lexer "
+                "with that shell's quoting rules (literal and comment contents abstracted, `$`/backtick events inside double quotes kept, adjacent "
+                "quoted pieces of one word collapsed) and the skeletons must be equal; the adversarial bash script must pass `bash -n`.",
+        "assumptions": COMMON_ASSUME + ["first-level structure only (how the shell reads the file); what complete/_arguments re-evaluate later is out of reach without those shells",
+                                        "the per-shell lexers are part of the trusted base; where a quoting rule was uncertain the character is treated as ordinary (can only miss a defect)"],
+        "technique": "non-interference runtime monitor: per-shell lexical skeleton of script(adversarial text) == skeleton of script(benign text)",
+        "level_text": "Two generator executions per tree and shell are compared on token structure; equal skeletons mean the text stayed inside literals/comments.",
+        "level_note": "PowerShell: ' and U+2018/2019/201A/201B delimit single-quoted strings, U+201C/201D/201E double-quoted ones (PowerShell tokenizer rules).",
+    },
 }
